@@ -20,6 +20,8 @@ type Events struct {
 	F2IRange    int // float -> int conversion of an out-of-range value
 	F2INaN      int
 	ShiftWide   int // shift amount >= 32 at run time
+	ClampInv    int // integer clamp with low > high (WGSL: min(max(e,low),high))
+	BitsClamp   int // extractBits / insertBits with offset + count > 32 (WGSL clamps)
 	IntOverflow int // i32/u32 + - * << whose mathematical result does not fit (matters for const-expressions only)
 	UndefBuiltin int // builtin called outside the domain where WGSL defines the result
 	Loads       int // loads from storage / uniform buffers
@@ -585,5 +587,5 @@ func ConstOK(e wgen.Expr) (ok bool) {
 	m.eval(e)
 	ev := m.ev
 	return ev.NonFinite == 0 && ev.Subnormal == 0 && ev.DivZero == 0 && ev.DivOverflow == 0 && ev.NegOverflow == 0 &&
-		ev.F2IRange == 0 && ev.F2INaN == 0 && ev.ShiftWide == 0 && ev.UndefBuiltin == 0 && ev.IntOverflow == 0 && ev.OOB == 0 && ev.FuzzyUse == 0
+		ev.F2IRange == 0 && ev.F2INaN == 0 && ev.ShiftWide == 0 && ev.UndefBuiltin == 0 && ev.BitsClamp == 0 && ev.IntOverflow == 0 && ev.OOB == 0 && ev.FuzzyUse == 0
 }
